@@ -1223,10 +1223,19 @@ impl<T: Serialize + for<'de> Deserialize<'de> + Clone + PartialEq + Send + Sync 
         mac.update(&entry.transaction_id.to_le_bytes());
         mac.update(&entry.timestamp.to_le_bytes());
         mac.update(&[entry.transaction_type as u8]);
+        // Length-prefix the variable-size fields: without it the tag of
+        // (key "ab", value "c") equals that of (key "a", value "bc"), and a delete
+        // cannot be told from an upsert of an empty value.
+        mac.update(&(entry.key.len() as u64).to_le_bytes());
         mac.update(entry.key.as_bytes());
 
-        if let Some(ref value) = entry.value {
-            mac.update(value);
+        match entry.value {
+            Some(ref value) => {
+                mac.update(&[1u8]);
+                mac.update(&(value.len() as u64).to_le_bytes());
+                mac.update(value);
+            }
+            None => mac.update(&[0u8]),
         }
 
         Ok(mac.finalize().into_bytes().into())
